@@ -41,7 +41,47 @@ LIFECYCLE = [W + n for n in ('spawn_process', 'spawn_processes', 'kill_process',
 
 
 def check(run, ctx):
-    run.each(ctx, [r1, r2, r3, r4])
+    run.each(ctx, [r1, r2, r3, r4, r5])
+
+
+def r5(run, ctx):
+    run.rule('R5', 'every ordinary managed socket is bound and listening before any worker')
+    f = ctx.fn('circus.sockets:CircusSockets.bind_and_listen_all')
+    cfg = ctx.cfg(f)
+    binds = ctx.nodes_calling(f, ['circus.sockets:CircusSocket.bind_and_listen'])
+    hdr = [h for h in cfg.nodes if h.kind == 'iter' and
+           any(b.id in cfg.branch_nodes(h, 'true') for b in binds)]
+    if not run.need('R5', binds if hdr else [], 'bind_and_listen for each socket of the table', f,
+                    'managed sockets are never bound'):
+        return
+    h = hdr[0]
+    run.check('R5', norm_text(h.ast.iter) in ('self.values()', 'list(self.values())',
+                                              'self.items()', 'self'),
+              'the loop visits every socket of the table', f, h.ast)
+
+    def reuseport(v):
+        return lambda e: (v if isinstance(e, ast.Attribute) and e.attr == 'so_reuseport' else None)
+    start = [cfg.nodes[i] for i, lab in cfg.succ[h.id] if lab == 'true']
+    # an ordinary socket (so_reuseport false): its iteration reaches the bind before the next
+    r = reach_under(cfg, start, reuseport(False), avoid=binds, labels_excluded=('exc',))
+    r |= {x.id for x in start if x not in binds}
+    run.check('R5', h.id not in r and cfg.exit.id not in r, 'an ordinary socket is always bound',
+              f, binds[0].ast, 'an ordinary socket can be skipped by bind_and_listen_all')
+    # no iteration ends the loop: the sockets after a per-worker (so_reuseport) one are bound too
+    from sa.idioms import nodes_within
+    body = {n.id for n in nodes_within(cfg, h.ast.body)}
+    leaves = [n for n in cfg.nodes if n.id in body and any(
+        nxt not in body and nxt != h.id and lab not in ('exc', 'raise', 'reraise')
+        for nxt, lab in cfg.succ[n.id])]
+    run.check('R5', not leaves, 'no socket ends the loop early', f,
+              leaves[0].ast if leaves and leaves[0].ast is not None else h.ast,
+              'bind_and_listen_all stops at some socket (break/return): every managed socket '
+              'after it in the table stays unbound, workers get descriptors that do not listen',
+              construct='bind loop left early')
+    # it runs before the watchers are started
+    init = ctx.fn('circus.arbiter:Arbiter.initialize')
+    run.need('R5', ctx.nodes_calling(init, [f.key]), 'bind_and_listen_all in Arbiter.initialize',
+             init, 'the managed sockets are not bound when the arbiter starts')
 
 
 def r1(run, ctx):
